@@ -5,14 +5,19 @@ package main
 // with recording handlers and middlewares and writes what happened.
 
 import (
+	"bytes"
 	"context"
 	"encoding/json"
 	"fmt"
 	"io"
+	"os"
+	"os/exec"
 	"sort"
+	"strconv"
 	"strings"
 	"sync"
 	"sync/atomic"
+	"time"
 
 	"github.com/plgd-dev/go-coap/v3/message"
 	"github.com/plgd-dev/go-coap/v3/message/codes"
@@ -586,13 +591,62 @@ func c17RunConc(seed uint64, dispatchers, mutators, perDispatcher int) (string, 
 	return fmt.Sprintf("Conc %s %s 1000 1001 [%s]", rl(c17Stable), rl(c17Pool), strings.Join(keys, ";\n    ")), total
 }
 
+// The free-running concurrent run is executed in a child process (the same
+// binary, --only "concchild <seed> <n>"): when the route table is accessed
+// without the router's lock the Go runtime does not panic, it ABORTS the process
+// ("fatal error: concurrent map iteration and map write"), which no recover()
+// can turn into an observation.  The abort of the child is the observation here.
+func c17ConcSafe(seed uint64, per int) (string, int) {
+	rl := func(l []c17Route) string {
+		p := make([]string, len(l))
+		for i, x := range l {
+			p[i] = fmt.Sprintf("(%s, %d)", coqStr(x.P), x.H)
+		}
+		return "[" + strings.Join(p, "; ") + "]"
+	}
+	exe, err := os.Executable()
+	if err != nil {
+		return c17RunConc(seed, 4, 3, per)
+	}
+	ctx, cancel := context.WithTimeout(context.Background(), 30*time.Minute)
+	defer cancel()
+	cmd := exec.CommandContext(ctx, exe, "C17", "--out", "-", "--only", fmt.Sprintf("concchild %d %d", seed, per))
+	var out, errb bytes.Buffer
+	cmd.Stdout, cmd.Stderr = &out, &errb
+	if err := cmd.Start(); err != nil {
+		return c17RunConc(seed, 4, 3, per)
+	}
+	if err := cmd.Wait(); err != nil {
+		kind := 2
+		if strings.Contains(errb.String(), "fatal error: concurrent map") {
+			kind = 1
+		}
+		fmt.Fprintf(os.Stderr, "C17 conc child: %v\n%s\n", err, firstLines(errb.String(), 6))
+		return fmt.Sprintf("ConcAbort %s %s %d", rl(c17Stable), rl(c17Pool), kind), 0
+	}
+	parts := strings.SplitN(out.String(), "\n", 2)
+	total, _ := strconv.Atoi(parts[0])
+	if len(parts) != 2 || !strings.HasPrefix(parts[1], "Conc ") {
+		return fmt.Sprintf("ConcAbort %s %s 2", rl(c17Stable), rl(c17Pool)), 0
+	}
+	return parts[1], total
+}
+
+func firstLines(s string, n int) string {
+	l := strings.Split(s, "\n")
+	if len(l) > n {
+		l = l[:n]
+	}
+	return strings.Join(l, "\n")
+}
+
 // ---- driver ----
 
 func runC17(a runArgs) error {
 	e := NewEmitter("C17", "Router.Run")
 	e.ShardSize = 60
 	e.Preamble = "From GoCoap Require Import Router.Model."
-	e.Rule = "mux.Router on fresh routers: (reg) Handle of one template with result and compiled regexp text; (disp) operation sequences Handle/HandleRemove/DefaultHandle + middlewares, then requests built from Uri-Path options through ServeCOAP with recording handlers; (conc) dispatch while goroutines add/remove routes; (hist) histories on one router: operations and requests interleaved, the same paths sent again after later Handle/HandleRemove/DefaultHandle. Distinct = distinct descriptor; non-trivial = a disp case with at least two live routes in which at least one request reached a registered route, a reg case that compiled, or a hist case in which some path was answered by a different route (or default instead of a route, or vice versa) than when it was sent before the operations in between."
+	e.Rule = "mux.Router on fresh routers: (reg) Handle of one template with result and compiled regexp text; (disp) operation sequences Handle/HandleRemove/DefaultHandle + middlewares, then requests built from Uri-Path options through ServeCOAP with recording handlers; (conc) dispatch while goroutines add/remove routes; (hist) histories on one router: operations and requests interleaved, the same paths sent again after later Handle/HandleRemove/DefaultHandle; (adapt) such histories with every request sent through mux.ToHandler(router), RouteParams recorded as the first middleware / the handler sees them; (excl) one request whose scan is observed route by route (hook verifScanPoint): lock probed at every visit, Handle/HandleRemove/DefaultHandle issued by another goroutine while the scan is parked at its k-th route. Distinct = distinct descriptor; non-trivial = a disp case with at least two live routes in which at least one request reached a registered route, a reg case that compiled, or a hist case in which some path was answered by a different route (or default instead of a route, or vice versa) than when it was sent before the operations in between, an adapt case in which a request followed one whose route had a variable name that its own route has not, every excl case."
 	rng := NewRng(a.seed)
 	addDisp := func(d c17Disp, tag string) {
 		coq, st := c17RunDisp(d)
@@ -630,10 +684,33 @@ func runC17(a runArgs) error {
 			}
 			coq, st := c17RunHist(h)
 			e.AddW(coq, h.desc(), st.switches > 0, 1+st.reqs/2, "hist")
+		case strings.HasPrefix(a.only, "adapt "):
+			h, err := c17ParseHist("hist " + strings.TrimPrefix(a.only, "adapt "))
+			if err != nil {
+				return err
+			}
+			coq, st := c17RunAdapt(h)
+			e.AddW(coq, h.adaptDesc(), st.uncovered > 0, 1+st.reqs/2, "adapt")
+		case strings.HasPrefix(a.only, "excl "):
+			x, err := c17ParseExcl(a.only)
+			if err != nil {
+				return err
+			}
+			if coq, _, _ := c17RunExcl(x, 120*time.Second); coq != "" {
+				e.AddW(coq, x.desc(), true, 2, "excl")
+			}
+		case strings.HasPrefix(a.only, "concchild "):
+			// the concurrent run proper, in a process of its own (see c17ConcSafe): result on stdout
+			var s uint64
+			var per int
+			fmt.Sscanf(a.only, "concchild %d %d", &s, &per)
+			coq, total := c17RunConc(s, 4, 3, per)
+			fmt.Printf("%d\n%s", total, coq)
+			return nil
 		case strings.HasPrefix(a.only, "conc "):
 			var s uint64
 			fmt.Sscanf(a.only, "conc %d", &s)
-			coq, _ := c17RunConc(s, 4, 3, 3000)
+			coq, _ := c17ConcSafe(s, 3000)
 			e.AddW(coq, a.only, true, 20, "conc")
 		}
 		return e.Flush(a.out)
@@ -721,13 +798,19 @@ func runC17(a runArgs) error {
 	// histories: operations and requests interleaved, the same paths again after later operations
 	c17AddHistFamily(e, rng, thorough)
 
+	// the same kind of histories through the adapter mux.ToHandler, RouteParams as the handlers see them
+	c17AddAdaptFamily(e, rng.Fork(), thorough)
+
+	// lock discipline witnessed at the scan points of Router.Match
+	c17AddExclFamily(e, rng.Fork(), thorough)
+
 	nconc, per := 2, 2500
 	if thorough {
 		nconc, per = 8, 20000
 	}
 	for i := 0; i < nconc; i++ {
 		s := a.seed*100 + uint64(i)
-		coq, total := c17RunConc(s, 4, 3, per)
+		coq, total := c17ConcSafe(s, per)
 		e.Extra["concurrent_dispatches"] = toInt(e.Extra["concurrent_dispatches"]) + total
 		e.AddW(coq, fmt.Sprintf("conc %d", s), true, 20, "conc")
 	}
